@@ -388,7 +388,7 @@ class Flow:
                 fv = flat(v)
                 if p.get('dd', -1) < 0:
                     for i, q in enumerate(p['a']):
-                        self.bind(fr, q, project(fv, str(i)), weak)
+                        self.bind(fr, q, project(fv, str(i)) | frozenset(['t:%d' % i]), weak)
                 else:
                     for q in p['a']:
                         self.bind(fr, q, fv, weak)
